@@ -31,6 +31,8 @@ type c14Scenario struct {
 	Shape     string      `json:"shape"`
 	StartVal  bool        `json:"start_with_val"`
 	IOHandler bool        `json:"io_on_handler"`
+	Restart   string      `json:"redundant_start,omitempty"` // "", "Start", "StartWithVal": called again on the running target
+	RestartD  int         `json:"redundant_start_delay_yields,omitempty"`
 	Callers   []c14Caller `json:"callers"`
 
 	h      *Hist
@@ -56,6 +58,11 @@ func genC14(t *simrt.Tape, tier string) Scenario {
 	sc.Shape = []string{"fixed", "echo", "accumulate"}[t.Choose(3)]
 	sc.StartVal = t.Bool(1, 3)
 	sc.IOHandler = t.Bool(1, 2)
+	if t.Bool(1, 3) {
+		// starting an already started coroutine again must change nothing
+		sc.Restart = []string{"StartWithVal", "Start"}[t.Choose(2)]
+		sc.RestartD = t.Choose(10)
+	}
 	maxC, maxS := 4, 3
 	if tier == "thorough" {
 		if t.Bool(1, 3) {
@@ -189,6 +196,18 @@ func (sc *c14Scenario) Run(s *simrt.Sim) {
 				}
 			}))
 		}
+	}
+	if sc.Restart != "" {
+		ths = append(ths, s.Go("restarter", func() {
+			for i := 0; i < sc.RestartD; i++ {
+				s.YieldHard()
+			}
+			if sc.Restart == "Start" {
+				h.Do("restarter", "Start-again", nil, func() (interface{}, error) { target.Start(); return nil, nil })
+			} else {
+				h.Do("restarter", "StartWithVal-again", 8000002, func() (interface{}, error) { target.StartWithVal(8000002); return nil, nil })
+			}
+		}))
 	}
 	n := len(sc.Callers)
 	done := func() bool {
